@@ -28,6 +28,10 @@ def poly(e, atom=None):
                     m = tuple(sorted(m1 + m2))
                     out[m] = out.get(m, 0) + c1 * c2
             return {m: c for m, c in out.items() if c != 0}
+    if k == 'call' and len(e[2]) == 2 and (e[1] or '').rsplit('::', 1)[-1] in ('wrapping_add', 'wrapping_sub', 'wrapping_mul'):
+        # modular arithmetic: the same ring operations (used for injectivity / agreement arguments, not for bounds)
+        op = {'wrapping_add': 'Add', 'wrapping_sub': 'Sub', 'wrapping_mul': 'Mul'}[e[1].rsplit('::', 1)[-1]]
+        return poly(('bin', op, e[2][0], e[2][1]), atom)
     name = atom(e) if atom else None
     if name is None:
         name = fmt(e)
